@@ -1,4 +1,4 @@
-"""setup: generate the libraries, build the harness, pre-generate the quick-tier TLC artefacts
+"""setup: generate the libraries, build the harness binaries, pre-generate the quick-tier TLC artefacts
 (they depend on /verif/spec only, so the checks themselves spend their time on the implementation)."""
 import os
 
@@ -12,11 +12,16 @@ def run():
     for (lib, tier), cfg in graph.MODELS.items():
         if tier == "quick" and os.path.exists(os.path.join(SPEC, cfg)):
             tlc_cached(f"graph-{lib}-{tier}", "MC_Graph", cfg, workers=12, timeout=900)
-    from . import names, plug, det, registry
+    from . import names, plug, det, registry, front, fslookup, cli
     names.artefacts("quick")
     plug.artefacts("quick")
     det.artefacts("quick")
     registry.artefacts("quick")
     registry.build()
+    front.build_docs("quick")
+    fslookup.artefacts("quick")
+    fslookup.build_nowat()
+    cli.artefacts("quick")
+    cli.build_wac()
     log("[setup] done")
     return 0
